@@ -346,9 +346,13 @@ def run(tier, seed):
     except tfg.Unsupported as e:
       r.inconclusive_("cannot translate %s auto: %s" % (cls, e))
   # one-element channels keep all five refinement rounds but have a single symbolic input; two-element channels are thorough-only
-  po2s = [("quantized_bits", dict(bits=4, integer=0, alpha="auto_po2"), (2, 1))]
+  # (a bound of exactly 0 is a bound: the second configuration keeps a lower bound of 0 and no upper bound)
+  po2s = [("quantized_bits", dict(bits=4, integer=0, alpha="auto_po2"), (2, 1)),
+          ("quantized_bits", dict(bits=4, integer=0, alpha="auto_po2", min_po2_exponent=0), (2, 1))]
   if tier == "thorough":
     po2s += [("quantized_bits", dict(bits=4, integer=0, alpha="auto_po2", min_po2_exponent=-3, max_po2_exponent=1), (2, 1)),
+             ("quantized_bits", dict(bits=4, integer=0, alpha="auto_po2", max_po2_exponent=0), (2, 1)),
+             ("quantized_bits", dict(bits=4, integer=0, alpha="auto_po2", min_po2_exponent=0, max_po2_exponent=0), (2, 1)),
              ("quantized_bits", dict(bits=3, integer=1, alpha="auto_po2"), (1, 2)), ("quantized_bits", dict(bits=6, integer=2, alpha="auto_po2"), (3, 1))]
   for i, (cls, kw, shape) in enumerate(po2s):
     try:
